@@ -58,6 +58,7 @@ pub struct GenOpts {
     pub dup_keys: bool,
     pub nonfinite: bool,
     pub plain_text: bool,
+    pub plain_keys: bool,
     pub alt_key_spellings: bool,
     pub scripts: ScriptMode,
     /// fraction of type-blind payloads
@@ -74,6 +75,7 @@ impl Default for GenOpts {
             dup_keys: false,
             nonfinite: false,
             plain_text: false,
+            plain_keys: false,
             alt_key_spellings: false,
             scripts: ScriptMode::AllContinue,
             blind: 0.05,
@@ -141,6 +143,7 @@ pub fn case_gen(reg: Arc<Reg>, eligible: Vec<usize>, opts: GenOpts) -> GenFn {
             dup_keys: opts.dup_keys && rng.random_range(0..3) == 0,
             nonfinite: opts.nonfinite && rng.random_range(0..3) == 0,
             plain_text: opts.plain_text,
+            plain_keys: opts.plain_keys,
             alt_key_spellings: opts.alt_key_spellings,
             ..GenCfg::default()
         };
